@@ -164,7 +164,11 @@ def stepLab (k : Cfg) (st : NState) : StepRes :=
     | p :: ps => .next { st with phase := .kids, f := { p with kids := p.kids ++ [st.f.toTree], created := true }, stack := ps }
   else if st.cur == semi then
     -- end of the tree statement; `next_token()` (non-raising) moves past it
-    if st.nesting != 0 then .done (.err .malformed)
+    if st.nesting != 0 then
+      -- `next_token()` comes first: an unterminated quote after the ';' is reported before the unbalanced parentheses
+      (match nextT k st.rest with
+       | .unterminated => .done (.err .unterminated)
+       | _ => .done (.err .malformed))
     else
       match nextT k st.rest with
       | .unterminated => .done (.err .unterminated)
@@ -277,7 +281,7 @@ theorem stepLab_decreases (k : Cfg) (st st' : NState) (hph : st.phase = .lab)
         simp [NState.measure, NState.rank]
     · split at h
       · split at h
-        · cases h
+        · split at h <;> cases h
         · split at h <;> cases h
       · split at h
         · cases h
